@@ -358,6 +358,14 @@ fn gen_from(r: &mut Rng, cat: &Catalog, feats: &mut Vec<&'static str>, allow_cte
             let wher = if r.bool() { format!(" WHERE {}", predicate(r, &inner_scope, 1, &mut f2)) } else { String::new() };
             let name = if r.chance(1, 4) { "t9".to_string() } else { "w".to_string() };
             let cte = format!("{} AS (SELECT * FROM {}{})", name, q(&t1.name), wher);
+            if r.chance(1, 3) {
+                // the same CTE name defined again inside a derived table: the inner definition is the one in scope there
+                feats.push("cte_redefined_in_subquery");
+                let inner_where = format!(" WHERE {}", predicate(r, &inner_scope, 1, &mut f2));
+                let sql = format!("(WITH {} AS (SELECT * FROM {}{}) SELECT * FROM {}) AS sub", name, q(&t1.name), inner_where, name);
+                let cols = table_scope(t1, Some("sub"), r.bool());
+                return FromClause { sql, scope: Scope { cols }, ctes: vec![cte] };
+            }
             let cols = table_scope(t1, Some(&name), r.bool());
             FromClause { sql: name.clone(), scope: Scope { cols }, ctes: vec![cte] }
         }
@@ -420,6 +428,19 @@ fn gen_select(r: &mut Rng, cat: &Catalog, feats: &mut Vec<&'static str>, allow_o
         for k in 0..nkeys {
             if s.cols.is_empty() {
                 break;
+            }
+            if r.chance(1, 8) && !s.of_kind(Ty::Num).is_empty() {
+                // a select alias that shadows an input column, with GROUP BY on that name: the name is
+                // the input column (SQL resolves GROUP BY against the FROM clause first), not the alias
+                let c = (*r.pick(&s.of_kind(Ty::Num))).clone();
+                let bare = q(&c.name);
+                if s.cols.iter().filter(|x| x.name == c.name).count() == 1 && !keys.contains(&bare) && !keys.contains(&c.sql) {
+                    feats.push("alias_shadows_column");
+                    items.push(format!("CASE WHEN {} > {} THEN 1 ELSE 0 END AS {}", c.sql, literal_near(r, &c.def), bare));
+                    keys.push(bare);
+                    out_tys.push(Ty::Num);
+                    continue;
+                }
             }
             if r.chance(1, 5) && !s.of_kind(Ty::Num).is_empty() {
                 // group by an expression with an alias
